@@ -30,9 +30,14 @@ def convert_vector(
         new_args=(new_point,),
     )
 
-    new_vector = vector.subs(conversion)
+    # Base vectors are expressed via the base scalars of the new system, which should be evaluated
+    # at the new point. Components of the vector itself are left as is.
+    conversion_at_point = {
+        old_vector: new_vectors.subs(new_point.coordinates, simultaneous=True)
+        for old_vector, new_vectors in conversion.items()
+    }
 
-    return new_vector.subs(new_point.coordinates, simultaneous=True)
+    return vector.subs(conversion_at_point, simultaneous=True)
 
 
 __all__ = [
